@@ -91,15 +91,15 @@ Definition model_dump (s : state) (n : node) : ndump :=
     model 5, engine 4 for an external input below a firewall; values and everything else equal) *)
 Definition opt_same_shape (a b : option N) : bool :=
   match a, b with Some _, Some _ | None, None => true | _, _ => false end.
-(** The pending-backward-projection mark is compared on in-memory runs only: on a db-backed
-    engine every cache miss is a scheduling point, and whether a changed firewall is reached
-    first by the transitive-firewall repair of a root (which runs its backward projections and
-    clears the mark) or as a dependency of a sibling task (which leaves the mark for the rest
-    of the epoch) then depends on task order inside one request (observed: 2 of 300 histories
-    on db:1, mark of the current epoch present in the model and absent in the engine; values,
-    executions and everything else equal). *)
+(** The pending-backward-projection mark is reported but not compared: whether a changed
+    firewall is reached first by the transitive-firewall repair of a root (which runs its
+    backward projections and clears the mark) or as a dependency of a sibling task (which leaves
+    the mark for the rest of the epoch) depends on the interleaving of the parallel repair tasks
+    of one request, which the model sequentialises (observed on in-memory and db-backed runs:
+    mark of the current epoch present in the model and absent in the engine; values, executions
+    and everything else equal).  A mark of an earlier epoch is never looked at again. *)
 Definition ndump_eqb_gen (strict dirty : bool) (a b : ndump) : bool :=
-  opt_same_shape (d_verified a) (d_verified b) && (negb strict || optN_eqb (d_pending a) (d_pending b))
+  opt_same_shape (d_verified a) (d_verified b)
   && nset_eqb (d_tfc a) (d_tfc b) && list_eqb node_eqb (d_fwd a) (d_fwd b)
   && nset_eqb (d_obs a) (d_obs b) && (negb dirty || nset_eqb (d_dirty a) (d_dirty b))
   && nset_eqb (d_obs_val_cur a) (d_obs_val_cur b) && nset_eqb (d_obs_tfc_cur a) (d_obs_tfc_cur b).
@@ -185,3 +185,18 @@ Fixpoint fw_failures_from (i : N) (cs : list case) : list N :=
   | c :: r => if check_fw c then fw_failures_from (i + 1) r else i :: fw_failures_from (i + 1) r
   end.
 Definition fw_failures (cs : list case) : list N := fw_failures_from 0 cs.
+
+(** programs in which firewalls read firewalls / projections read projections: which of the
+    parallel repair tasks of one request reaches a shared firewall or projection first decides
+    whether stale transitive firewall callees are repaired and whether a projection is re-run
+    or cleaned, so executions and bookkeeping are not a function of the history there (the
+    model runs the tasks one after the other).  Graded comparison: 2*i for a case that differs
+    from the model only in executions / bookkeeping, 2*i+1 for one whose ANSWERS differ. *)
+Fixpoint graded_failures_from (i : N) (cs : list case) : list N :=
+  match cs with
+  | [] => []
+  | c :: r =>
+      if check c then graded_failures_from (i + 1) r
+      else (if check_values c then 2 * i else 2 * i + 1)%N :: graded_failures_from (i + 1) r
+  end.
+Definition graded_failures (cs : list case) : list N := graded_failures_from 0 cs.
